@@ -146,7 +146,9 @@ def c09_2(ctx, ss):
         return
     stores = _stores_into_fs(ff, flow)
     if not stores:
-        raise AnchorMissing(f"{F}: no store of the form d['fs'][i] = ... found (replacement idiom not recognised)")
+        ctx.violation("C09.2", ckey(ff, None, "no-replacement"), where(ff, rec[0]),
+                      "the chain returned by the recursive call is never stored into the entry's daughters list: decaying daughters stay bare names")
+        return
     for st, t in stores:
         idx = t.slice
         base = t.value            # d["fs"]
@@ -316,6 +318,13 @@ def c09_5(ctx, ss):
                       "_find_decay_modes can finish without returning a table and without raising DecayNotFound")
     else:
         ctx.holds("C09.5", ckey(gf, None, "fallthrough"), where(gf, rn[0]), "every path without a matching table ends in raise DecayNotFound", len(rets) + len(rn))
+    # the search covers every table
+    loops = [n for n in pf.walk_no_nested(gf.node) if isinstance(n, ast.For)]
+    okl = len(loops) == 1 and txt(gflow.expand(loops[0].iter)) in ("self._parsed_decays", "list(self._parsed_decays)", "tuple(self._parsed_decays)") \
+        and not any(isinstance(x, (ast.Break, ast.Continue)) for x in ast.walk(loops[0]))
+    (ctx.holds if okl else ctx.violation)("C09.5", ckey(gf, None, "all-tables"), where(gf, loops[0] if loops else gf.node),
+                                          "the table of the mother is searched among all parsed decay tables" if okl
+                                          else f"_find_decay_modes does not look through every table (`{txt(gflow.expand(loops[0].iter))[:60] if loops else None}`): mothers beyond it are 'not found'")
     for r in rets:
         conds = guards.path_conditions(gf.node, r)
         eqs = [gflow.expand(e) for kind, e, pol in conds if kind == "if" and pol]
@@ -343,6 +352,12 @@ def c09_5(ctx, ss):
 def c09_6(ctx, ss):
     ff, flow = fn(ss, DEC, F)
     r, key, val = _result_builder(ff, flow)
+    # the model field is the bare model name (no PHOTOS prefix) in chains
+    dcalls = method_calls(ff, ("_decay_mode_details",), ("self",))
+    okp = bool(dcalls) and all((a := call_arg(c, 1, "display_photos_keyword")) is not None and isinstance(a, ast.Constant) and a.value is False for c in dcalls)
+    (ctx.holds if okp else ctx.violation)("C09.6", ckey(ff, None, "bare-model"), where(ff, dcalls[0] if dcalls else ff.node),
+                                          "chain entries carry the bare model name (display_photos_keyword=False)" if okp
+                                          else "chain entries are built with the PHOTOS keyword prefixed to the model name: the `model` field is no longer the line's model")
     if flow.is_identity_of(key, "mother"):
         ctx.holds("C09.6", ckey(ff, r, "key"), where(ff, r), "result is keyed by the mother parameter", 1)
     else:
